@@ -3,7 +3,7 @@ CONSTANTS
   Kind = "provider"
   Starts <- StartsUp
   Certs <- BoolT
-  Tmpls <- TmplBoth
+  Tmpls <- TmplEdge
   Drc0 <- DrcNamed
   EnvKinds <- EnvMid
   Interf <- InterfDeps
@@ -15,6 +15,7 @@ CONSTANTS
   GuardInactive = TRUE
   GuardHealth = TRUE
   OwnDelete = FALSE
+  CacheMiss = TRUE
 VIEW view
 ACTION_CONSTRAINT Emit
 CHECK_DEADLOCK FALSE
